@@ -72,9 +72,16 @@ def classify(solver, tok):
     return "%s-%s/%s" % (eqn, flux, bt[0]), cfl
 
 
+EXPECT = {"global": False}     # set by the workload while it runs a solve that asked for ONE global time step
+
+
 def observer(solver, tok, f_after):
     ctx = CTX
     if not probes.take("step"):
+        return
+    if EXPECT["global"] and np.ndim(tok["dt"]) != 0:
+        ctx.ev("history")
+        ctx.fail("history/local-time-steps-used-by-a-solve-that-did-not-ask-for-them", {"dt passed to step": tok["dt"]})
         return
     cls, info = classify(solver, tok)
     if cls is None:
@@ -106,7 +113,7 @@ def install(ctx):
 
 def setup(ctx):
     install(ctx)
-    ctx.require(*["%s/%s" % (f, b) for f in ("euler-hlle", "euler-hllc", "shallowwater-rusanov", "shallowwater-hll") for b in ("per", "sym")])
+    ctx.require(*["%s/%s" % (f, b) for f in ("euler-hlle", "euler-hllc", "shallowwater-rusanov", "shallowwater-hll") for b in ("per", "sym")], "history")
 
 
 def teardown(ctx):
@@ -161,6 +168,19 @@ def riemann_runs(ctx, rng, idx):
     f = gen.fdata_prim(model, mesh, prim)
     cfl = 0.5 if rng.random() < 0.3 else float(rng.uniform(0.05, 0.5))
     nstep = int(rng.integers(1, 51))
-    ctx.describe(model=mname, params=mparams, flux=flux, mesh=mdesc, bc=bc, integrator=iname, cfl=cfl, nstep=nstep, datakind=kind, prim=prim)
-    gen.integ(iname)(mesh, disc).solve(f, cfl, stop={"maxit": nstep})
+    solver = gen.integ(iname)(mesh, disc)
+    hist = bool(rng.random() < 0.3)
+    ctx.describe(model=mname, params=mparams, flux=flux, mesh=mdesc, bc=bc, integrator=iname, cfl=cfl, nstep=nstep, datakind=kind, prim=prim,
+                 integrator_used_before_with_dtlocal_and_another_cfl=hist)
+    if hist:      # the SAME integrator object has been used before: local time stepping, another CFL number, smooth data
+        smooth_prim, _ = gen.prim_for(mname, model, rng, n, "smooth", mach_max=0.5, ratio=2.0)
+        pre = solver.solve(gen.fdata_prim(model, mesh, smooth_prim), 0.3, stop={"maxit": 2}, directives={"dtlocal": True})
+        if rng.random() < 0.5:
+            solver.restart(pre[-1], 0.2, stop={"maxit": 1})
+        ctx.ev("history")
+    EXPECT["global"] = True
+    try:
+        solver.solve(f, cfl, stop={"maxit": nstep})
+    finally:
+        EXPECT["global"] = False
     ctx.nontrivial("pos", mname, flux, bc, iname, cfl, nstep, prim)
